@@ -24,19 +24,31 @@ def model_decode(ops, workdir):
     res, crashed = common.run_side([common.DRIVER], ops, 'ref', workdir)
     return res
 
+def crate_decode(ops, workdir):
+    """second pass through the crate itself (its own decoder applied to its own output)"""
+    if not ops: return []
+    res, crashed = common.run_side([common.HARNESS_BIN, 'run'], ops, 'own', workdir)
+    return [strip_cost_text(norm_rust(x)) for x in res]
+
+def strip_cost_text(line):
+    return common.strip_cost(line)[0]
+
 # ---------------------------------------------------------------- generic comparison
 
-def norm_rust(line):
+POST_PANIC = ' post-panic'
+def norm_rust(line, keep_post=False):
     if line == 'bad-op': return 'unconstructible'
+    if not keep_post and line.endswith(POST_PANIC): return line[:-len(POST_PANIC)]
     return line
 
 def norm_lean(line):
     if line == 'bad-op': return 'unconstructible'
     return line
 
-def cmp_full(r, l): return r == l
+OVERSIZE = ' oversize'
+def cmp_full(r, l): return r == l or (l.endswith(OVERSIZE) and r == l[:-len(OVERSIZE)])
 def cmp_nocost(r, l): return common.strip_cost(r)[0] == common.strip_cost(l)[0]
-def cmp_class(r, l): return r.split(' ', 1)[0] == l.split(' ', 1)[0]
+def cmp_class(r, l): return r.split(' ', 1)[0] == l.split(' ', 1)[0] and not r.endswith(POST_PANIC)
 def cmp_accept(r, l):
     if r.startswith('err') and l.startswith('err'): return True
     return common.strip_cost(r)[0] == common.strip_cost(l)[0]
@@ -52,9 +64,13 @@ def o_C01(cases, rust, lean, V, wd):
     for i, r in enumerate(rust):
         if r.startswith('panic') or r.startswith('crash'):
             V.failing.append((i, 'the call did not return: ' + r))
+        elif r.endswith(POST_PANIC):
+            V.failing.append((i, 'a returned value could not be cloned / compared / formatted / queried / re-encoded without a panic'))
 
 def o_C02(cases, rust, lean, V, wd):
-    for i, r in enumerate(rust):
+    for i, (r, l) in enumerate(zip(rust, lean)):
+        if r == 'encerr Length' and l == 'encerr Length' + OVERSIZE:
+            continue      # the decoded message does not fit in 65,535 octets uncompressed (size computed by the model): outside C02's guard
         if r not in ('same', 'skip'):
             V.failing.append((i, 'decode->encode->decode is not the identity: ' + r))
 
@@ -167,12 +183,23 @@ def o_C09(cases, rust, lean, V, wd):
 def o_C10(cases, rust, lean, V, wd):
     ref = second_pass(cases, rust, {'enc.rr': 'dec.rr', 'enc.question': 'dec.question', 'enc.name': 'dec.name', 'enc.flags': 'dec.flags',
                                     'enc.type': 'dec.type', 'enc.class': 'dec.class', 'enc.qtype': 'dec.qtype', 'enc.qclass': 'dec.qclass'}, wd)
+    kinds = {'enc.rr': 'dec.rr', 'enc.question': 'dec.question', 'enc.name': 'dec.name', 'enc.flags': 'dec.flags',
+             'enc.type': 'dec.type', 'enc.class': 'dec.class', 'enc.qtype': 'dec.qtype', 'enc.qclass': 'dec.qclass'}
+    ops2 = []; idx2 = []
+    for i, (c, r) in enumerate(zip(cases, rust)):
+        if r.startswith('ok ') and c.op.split(' ', 1)[0] in kinds:
+            ops2.append('%s %s' % (kinds[c.op.split(' ', 1)[0]], r[3:])); idx2.append(i)
+    own = dict(zip(idx2, crate_decode(ops2, wd)))
     for i, (c, r) in enumerate(zip(cases, rust)):
         opk, arg = c.op.split(' ', 1)
         if opk in ('enc.rr', 'enc.question', 'enc.name', 'enc.flags', 'enc.type', 'enc.class', 'enc.qtype', 'enc.qclass') and r.startswith('ok '):
             d = ref.get(i)
-            if d is None or not d.startswith('ok') or lower_text(sort_mandatory_text(value_of(d))) != lower_text(sort_mandatory_text(dedup_text(arg))):
-                V.failing.append((i, 'element does not round-trip through its own codec pair: %s' % (d or '')[:80]))
+            want = lower_text(sort_mandatory_text(dedup_text(arg)))
+            if d is None or not d.startswith('ok') or lower_text(sort_mandatory_text(value_of(d))) != want:
+                V.failing.append((i, 'element bytes are not what the reference decoder expects for this element: %s' % (d or '')[:80]))
+            o = own.get(i)
+            if o is None or not o.startswith('ok') or lower_text(sort_mandatory_text(value_of(o))) != want:
+                V.failing.append((i, 'element does not round-trip through its own encode/decode pair: %s' % (o or '')[:80]))
         if opk == 'enc.struct' and i > 0 and cases[i - 1].op == 'enc.rr ' + arg and rust[i - 1] != r:
             V.failing.append((i, 'struct encode differs from RR::encode'))
         if isinstance(c.exp, tuple) and c.exp[0] == 'EMBED' and r.startswith('ok ') and rust[i - 2].startswith('ok '):
